@@ -6,11 +6,11 @@ STATE_PREDS = {"TransferConservation", "Conservation", "NoNegative", "WellFormed
 
 MC_ALL_DIRECT = ["P04_FlagTakesEffect", "P01_DeliveryNominal", "P16_Price", "P10_RoundTrip", "P10_Accepted", "P11_ShapeVerdict", "P01_FailKeeps", "P02_Others", "P02_NoOverdraft", "P03_Authority", "P04_Immobile", "P04_NoCreditWhilePaused", "P04_FlagOnly",
                  "P05_Protected", "P05_KVExact", "P05_Frame", "P06_NoGasCreated", "P07_ReturnedNonce", "P07_CtrOnlyByCreate", "P08_Create",
-                 "P08_OnlyUriAttr", "P08_WrongHash", "P09_Admissible", "P09_Rejected"]
+                 "P08_OnlyUriAttr", "P08_WrongHash", "P09_Admissible", "P09_Rejected", "P03_Denied", "P02_FreshNonce"]
 
 
 def mc_cfg(fns, msgs, supply, ctr, checked=None, bugs=(), hs=("u0a", "u0b", "u1a"), freeze=("u0a",), ptoks=("46",), pshards=(0,), gas=(1000,), rejected=False, emit=False, rejsample=4, accsample=1,
-           invs=("InvNoViol", "InvConservation", "InvNoNegative", "InvWellFormed", "InvSysClean", "InvNonces")):
+           invs=("InvNoViol", "InvConservation", "InvTransferConservation", "InvNoNegative", "InvWellFormed", "InvSysClean", "InvNonces")):
     q = lambda l: "{" + ", ".join('"%s"' % x for x in l) + "}"
     pd = q(ptoks) + "\n  PauseShards = {" + ", ".join(str(x) for x in pshards) + "}"
     return ("SPECIFICATION Spec\nCONSTANTS\n  Fns = %s\n  MaxMsgs = %d\n  MaxSupply = %d\n  MaxCtr = %d\n  Hs = %s\n  FreezeAccts = %s\n  PauseToks = %s\n"
